@@ -17,7 +17,7 @@ from typing import Any, Callable, Dict, List, Optional, Sequence, Tuple
 
 from harness import core
 
-MAX_PAR = int(os.environ.get("VERIF_SDK_PAR", "8"))
+MAX_PAR = int(os.environ.get("VERIF_SDK_PAR", "4"))
 
 
 def _register(ck: core.Check, res: core.TlcResult, what: str, count: bool) -> None:
